@@ -42,7 +42,7 @@ def arbiter_config(draw, max_n=6, min_n=1):
 def schedule_spec():
     return st.fixed_dictionaries({
         "dseed": st.integers(0, 1 << 30),
-        "cycles": st.integers(30, 200),
+        "cycles": gens.weighted((11, st.integers(30, 200)), (1, st.integers(500, 1200))),     # occasionally a long run
         "req_bias": st.sampled_from([1, 2, 3, 3]),       # P(cyc) ~ k/4
         "hold": st.lists(st.integers(1, 6), min_size=8, max_size=8),
         "ack_bias": st.sampled_from([1, 2, 3]),
